@@ -3,7 +3,7 @@ CONSTANTS
   NPaths = 3
   Contents = {"ClsDoc", "ClsDoc2", "ClsPlain", "ClsField", "GInt", "GStr", "ReqB", "Mod", "Alias", "Enum", "DiagOff", "Undef", "UseFoo", "ClsSub"}
   Ops = {"update", "reindex"}
-  MaxSteps = 4
+  MaxSteps = 2
   EditDist = 1
   Batch = FALSE
   EmitSel = "same"
